@@ -481,11 +481,14 @@ def check(pid, tier="quick", runs=None, procs=None, vseed=None, budget=None):
         with open(os.environ["VERIF_DUMP"], "w") as f:
             for row in sorted(dump):
                 f.write(json.dumps(row) + "\n")
-    if total["errors"] and not harness_error:
-        harness_error = "%d scenario(s) raised inside the harness; first: %s" % (len(total["errors"]), total["errors"][0])
     if harness_error:
         print("HARNESS-ERROR property=%s %s" % (pid, harness_error))
         return 2
+    scenario_errors = None
+    if total["errors"]:
+        # scenarios the harness could not finish (hung twice, raised inside the simulator): exit 2 - unless reproducible
+        # violations were found as well, which say more (a change that breaks the property often makes other scenarios hang)
+        scenario_errors = "%d scenario(s) raised inside the harness; first: %s" % (len(total["errors"]), total["errors"][0])
 
     # ---- witnesses of open known findings
     exit_code = 0
@@ -536,6 +539,11 @@ def check(pid, tier="quick", runs=None, procs=None, vseed=None, budget=None):
             print("VIOLATION property=%s replay=%s" % (pid, path))
             reported.append(path)
             exit_code = 1
+    if scenario_errors:
+        if exit_code == 0:
+            print("HARNESS-ERROR property=%s %s" % (pid, scenario_errors))
+            return 2
+        print("note: besides the violation(s) above, %s" % scenario_errors[:300])
 
     wall = time.time() - t0
     cov = {
